@@ -332,3 +332,52 @@ func VerifC03NumericTLD() {
 		verifrt.Cover("invalid")
 	}
 }
+
+// VerifC03ACE: names with an "xn--" label (first or later position, either
+// letter case) followed by 0..3 bytes from {'-','0','a','z'}: idna.ToASCII decodes or
+// rejects the label (executed for real) and the validators must follow its
+// verdict and the grammar of its result.
+func VerifC03ACE() {
+	var b []byte
+	switch verifrt.Choice(3) {
+	case 1:
+		b = append(b, "a."...)
+	case 2:
+		b = append(b, "_s.a."...)
+	}
+	if verifrt.Bool2() {
+		b = append(b, "xn--"...)
+	} else {
+		b = append(b, "XN--"...)
+	}
+	for n := verifrt.Len(3); n > 0; n-- {
+		// a small alphabet: an arbitrary decoded rune would take the real
+		// idna through its whole Unicode tables (thousands of code points
+		// per byte)
+		b = append(b, "-0az"[verifrt.Choice(4)])
+	}
+	if verifrt.Bool2() {
+		b = append(b, ".com"...)
+	}
+	s := string(b)
+	t, terr := idna.ToASCII(s)
+	kind := verifrt.Choice(3)
+	var err error
+	switch kind {
+	case c03Host:
+		err = ValidateHostname(s)
+	case c03SRV:
+		err = ValidateSRVDomainName(s)
+	default:
+		err = ValidateDomainName(s)
+	}
+	want := terr == nil && c03Ref(t, kind)
+	verifrt.ObserveBool("ok", err == nil)
+	verifrt.Assert((err == nil) == want, "validator differs from the documented grammar applied to idna.ToASCII of a name with an xn-- label")
+	c03CheckErr(err, s)
+	if want {
+		verifrt.Cover("valid")
+	} else {
+		verifrt.Cover("invalid")
+	}
+}
